@@ -43,8 +43,11 @@ def variants_compressed():
     return v
 
 
-def linebase(fmt, w, nlines, strategies, veftype=0, pages="{1}", motifs="{FALSE}", vals="{0, 15, 240, 255, 17, 136, 8, 119}", pals=PALS):
-    return {"Format": '"%s"' % fmt, "W": str(w), "NLines": str(nlines), "VefType": str(veftype), "PalSet": pals, "Vals": vals,
+ALLKINDS = '{"const", "halves", "noise", "same", "poke", "stripes"}'
+
+
+def linebase(fmt, w, nlines, strategies, veftype=0, pages="{1}", motifs="{FALSE}", vals="{0, 15, 240, 255, 17, 136, 8, 119}", pals=PALS, kinds=ALLKINDS):
+    return {"Kinds": kinds, "Format": '"%s"' % fmt, "W": str(w), "NLines": str(nlines), "VefType": str(veftype), "PalSet": pals, "Vals": vals,
             "Strategies": "{" + ", ".join('"%s"' % x for x in strategies) + "}", "Pages": pages, "Motifs": motifs, "_module": "LineGen"}
 
 
@@ -98,3 +101,22 @@ def case_of(i, f, res):
     c = {"id": i, "fmt": f["fields"]["fmt"], "w": f["fields"].get("w", 0), "h": f["fields"].get("h", 0), "veftype": f["fields"].get("veftype", 0),
          "mode": f["fields"].get("mode", ""), "pal": f["fields"]["pal"], "cmp": f["fields"]["cmp"], "img": f["fields"]["img"], "got": got_of(res)}
     return c
+
+
+def variants_compact():
+    """small valid files for fault enumeration (C19): long runs, constant lines, toy dimensions where the tool has size options"""
+    big = "{255}"
+    v = [("rat-compact", base("RAT", "RAT", 160 * 199, 160, vals="{17, 35}", esc=112, allowrep="TRUE", lens=big, noise="{5}", pals="{5}"), "rattoppm", [], {"fmt": "RAT", "w": 320, "h": 199}),
+         ("mge-compact", base("MGE", "MGE-RLE", 32000, 160, vals="{17, 35}", lens=big, pals="{5}"), "mgetoppm", [], {"fmt": "MGE", "w": 320, "h": 200}),
+         ("cm3-compact", linebase("CM3", 160, 192, ["prefer-left", "prefer-up"], pages="{1}", motifs="{FALSE}", vals="{17}", pals="{5}", kinds='{"const", "same", "poke"}'), "cm3toppm", [], {"fmt": "CM3", "w": 320, "h": 192}),
+         ("vef-compact", linebase("VEF", 80, 400, ["runs"], veftype=0, vals="{17}", pals="{5}", kinds='{"const", "halves"}'), "veftopng", [], {"fmt": "VEF", "veftype": 0, "w": 320, "h": 200}),
+         ("hrs-toy", base("RAW", "HRS", 4 * 4, 4, vals="{17, 35}", lens="{1, 2, 3}", pals="{5}"), "hrstoppm", ["-w", "8", "-r", "4"], {"fmt": "HRS", "w": 8, "h": 4}),
+         ("max-toy", base("RAW", "MAX", 2 * 6, 2, vals="{17, 35}", lens="{1, 2, 3}", pals="{5}"), "maxtoppm", ["-w", "16"], {"fmt": "MAX", "mode": "bw", "w": 16, "h": 6}),
+         ("max-toy-i", base("RAW", "MAX", 2 * 6, 2, vals="{17, 35}", lens="{1, 2, 3}", pals="{5}"), "maxtoppm", ["-w", "16", "-i", "-br"], {"fmt": "MAX", "mode": "br", "w": 16, "h": 6}),
+         ("art-toy", base("RAW", "NEWS", 2 * 6, 2, vals="{17, 35}", lens="{1, 2, 3}", pals="{5}"), "maxtoppm", ["-newsroom"], {"fmt": "MAX", "mode": "bw", "w": 16, "h": 6}),
+         ("pix-toy", base("RAW", "NONE", 32, 4, vals="{17, 35}", lens="{1, 2, 3}", pals="{5}"), "pixtopgm", [], {"fmt": "PIX", "w": 8, "h": 8})]
+    return v
+
+
+def variants_big_raw():
+    return [x for x in variants_uncompressed() if x[0] in ("mge-raw", "vef-raw-0", "vef-raw-3", "hrs")] + variants_cm3_raw()[:1]
